@@ -164,6 +164,8 @@ void cpputest_malloc_set_out_of_memory()
 {
     if (originalAllocator == NULLPTR)
         originalAllocator = getCurrentMallocAllocator();
+    if (originalAllocator == outOfMemoryAllocator()) /* put back behind our back (an allocator stash, for instance): it must not stand in for itself */
+        originalAllocator = defaultMallocAllocator();
     outOfMemoryAllocator()->setOriginal(originalAllocator);
     setCurrentMallocAllocator(outOfMemoryAllocator());
 }
